@@ -31,6 +31,8 @@ ATLEAST = "puan.logic.plog.AtLeast"
 
 
 def _strip_list(t):
+    if t is None:
+        raise Uninterp('missing argument')
     if t[0] == 'call' and t[1] in (T.G('list'), T.G('tuple'), T.G('sorted')) and len(t[2]) == 1 and not t[3]:
         return _strip_list(t[2][0])
     return t
@@ -453,6 +455,8 @@ def states(max_a=2, max_k=2):
 
 
 def interp(t, st):
+    if t is None:
+        raise Uninterp('missing argument')
     k = t[0]
     if k == 'const':
         if isinstance(t[1], (bool, int)):
